@@ -96,7 +96,7 @@ def _create_constraint(
     if mjd is not None:
       shape = tuple(sizes[dim] if isinstance(dim, str) else dim for dim in f.type.shape)
       val = np.zeros(shape, dtype=wp.dtype_to_numpy(f.type.dtype))
-      if f.name in ("type", "id", "pos", "margin", "D", "vel", "aref", "frictionloss", "force"):
+      if f.name in ("type", "id", "pos", "margin", "D", "vel", "aref", "frictionloss", "force", "state"):
         val[:, : mjd.nefc] = np.tile(getattr(mjd, "efc_" + f.name), (nworld, 1))
       efc_kwargs[f.name] = wp.array(val, dtype=f.type.dtype)
     else:
@@ -1586,17 +1586,25 @@ def _allocate_island_arrays(
   d.tree_island = wp.array(np.tile(mjd.tree_island, (nworld, 1 if enabled else 0)), dtype=int)
   d.dof_island = wp.array(np.tile(mjd.dof_island, (nworld, 1 if enabled else 0)), dtype=int)
 
-  d.island_dofadr = wp.empty((nworld, ntree_size), dtype=int)
-  d.island_idofadr = wp.empty((nworld, ntree_size), dtype=int)
-  d.island_nv = wp.empty((nworld, ntree_size), dtype=int)
-  d.island_nefc = wp.empty((nworld, ntree_size), dtype=int)
-  d.island_ne = wp.empty((nworld, ntree_size), dtype=int)
-  d.island_nf = wp.empty((nworld, ntree_size), dtype=int)
-  d.island_iefcadr = wp.empty((nworld, ntree_size), dtype=int)
-  d.map_dof2idof = wp.empty((nworld, nv_size), dtype=int)
-  d.map_idof2dof = wp.empty((nworld, nv_size), dtype=int)
-  d.map_efc2iefc = wp.empty((nworld, njmax_size), dtype=int)
-  d.map_iefc2efc = wp.empty((nworld, njmax_size), dtype=int)
+  # nisland / nidof are copied from mjd above, so the arrays they index must hold mjd's values too
+  # (get_data_into exports them whenever nisland > 0)
+  def _from_mjd(src, size):
+    src = np.asarray(src).reshape(-1)[:size]
+    arr = np.zeros(size, dtype=np.int32)
+    arr[: src.size] = src
+    return wp.array(np.tile(arr, (nworld, 1)), dtype=int)
+
+  d.island_dofadr = _from_mjd(mjd.island_dofadr, ntree_size)
+  d.island_idofadr = _from_mjd(mjd.island_idofadr, ntree_size)
+  d.island_nv = _from_mjd(mjd.island_nv, ntree_size)
+  d.island_nefc = _from_mjd(mjd.island_nefc, ntree_size)
+  d.island_ne = _from_mjd(mjd.island_ne, ntree_size)
+  d.island_nf = _from_mjd(mjd.island_nf, ntree_size)
+  d.island_iefcadr = _from_mjd(mjd.island_iefcadr, ntree_size)
+  d.map_dof2idof = _from_mjd(mjd.map_dof2idof, nv_size)
+  d.map_idof2dof = _from_mjd(mjd.map_idof2dof, nv_size)
+  d.map_efc2iefc = _from_mjd(mjd.map_efc2iefc, njmax_size)
+  d.map_iefc2efc = _from_mjd(mjd.map_iefc2efc, njmax_size)
 
   d.dof_islandid = wp.empty((nworld, nv_size), dtype=int)
   d.efc_islandid = wp.empty((nworld, njmax_size), dtype=int)
